@@ -41,19 +41,57 @@ def _norm(detail):
     return d.replace(" ", "_")[:160]
 
 
+def _opcode_at(c, addr):
+    """prefix/opcode class of the instruction at `addr` inside the request's bytes (x86/amd64), or the major
+    opcode fields of the word there (fixed-width ISAs): ties an ill-formedness signature to the instruction"""
+    f = c.req.split(" ")
+    try:
+        arch, data, base = f[1], bytes.fromhex(f[2]), int(f[3], 16)
+        off = (addr - base) % (1 << 64)
+        b = data[off:]
+        if arch in ("x86", "amd64"):
+            i, pre = 0, []
+            while i < len(b) and (b[i] in (0x66, 0x67, 0xf2, 0xf3, 0x2e, 0x36, 0x3e, 0x26, 0x64, 0x65, 0xf0)
+                                  or (arch == "amd64" and 0x40 <= b[i] <= 0x4f)):
+                if b[i] in (0x66, 0x67, 0xf2, 0xf3):
+                    pre.append("%02x" % b[i])
+                elif 0x48 <= b[i] <= 0x4f:
+                    pre.append("rexw")
+                i += 1
+            if i < len(b) and b[i] == 0x0f and i + 1 < len(b):
+                op = "0f%02x" % b[i + 1]
+                modrm = b[i + 2] if i + 2 < len(b) else None
+            elif i < len(b):
+                op = "%02x" % b[i]
+                modrm = b[i + 1] if i + 1 < len(b) else None
+            else:
+                return "none"
+            grp = ""
+            if op in ("ff", "fe", "f6", "f7", "80", "81", "83", "c0", "c1", "d0", "d1", "d2", "d3", "8f", "c6", "c7") and modrm is not None:
+                grp = "/%d" % ((modrm >> 3) & 7)
+            return "+".join(sorted(set(pre))) + ":" + op + grp
+        w = int.from_bytes(b[:4], "big" if arch in ("mips", "ppc") else "little")
+        return "op%02x" % (w >> 26)
+    except Exception:
+        return "?"
+
+
 def signature(c):
-    """panic: where and why it panicked; ill-formed: which rule, and the shape of the offending operation or
-    guard set (register names, temporaries and constants abstracted) — not the bytes, so that every encoding
-    with the same defect maps to one finding while a different defect gets a different signature"""
+    """panic: where and why it panicked; ill-formed: which rule, the instruction (prefixes + opcode) it was lifted
+    from and the shape of the offending operation or guard set (registers, temporaries and constants abstracted)
+    — not the operand bytes, so every encoding with the same defect maps to one finding while a different defect
+    gets a different signature"""
     v = c.model
     arch = c.cls.split("/")[1] if "/" in c.cls else "?"
     if v.startswith("panic"):
         return f"C05/{arch}/{v.replace(' ', '_')}"
     if v.startswith("illformed"):
         body = v[len("illformed "):]
+        m = re.search(r"@0x([0-9a-f]+)", body)
+        ins = _opcode_at(c, int(m.group(1), 16)) if m else "block"
         body = re.sub(r"@0x[0-9a-f]+", "", body)
         why, _, detail = body.partition(" ")
-        return f"C05/{arch}/illformed/{why}/{_norm(detail)}"
+        return f"C05/{arch}/illformed/{why}/{ins}/{_norm(detail)}"
     return f"C05/{c.cls}/{v.split(' ')[0]}"
 
 
